@@ -1,0 +1,133 @@
+//go:build verif
+
+package preconfirmed
+
+// Contracts for gocv (contract-based deductive verification, /verif).
+
+// ---- the pre-confirmed chain: a run of blocks ending at the tip, handed out as immutable views ----
+// A ChainReader is (head node, length): the view covers block numbers tip-length+1 .. tip, where
+// tip is the head node's block number. Views are well-formed when the run does not go below 0.
+//@ opaque type github.com/NethermindEth/juno/core/felt.Felt
+//@ pure func numOf(n *node) uint64 = n.preconfirmed.Block.Header.Number
+//@ pure func wfNode(n *node) bool = n != nil && n.preconfirmed != nil && n.preconfirmed.Block != nil && n.preconfirmed.Block.Header != nil
+//@ pure func wfChain(c *ChainReader) bool = c.length >= 0 && (c.length > 0 ==> wfNode(c.head) && c.length - 1 <= numOf(c.head))
+
+//@ func (*ChainReader).tip
+//@   props C20
+//@   arith int
+//@   requires c != nil && wfChain(c) && c.length > 0
+//@   ensures result == numOf(c.head)
+
+//@ func (*ChainReader).oldestPreConf
+//@   props C20
+//@   arith int
+//@   requires c != nil && wfChain(c) && c.length > 0
+//@   ensures result == numOf(c.head) - (c.length - 1)
+
+//@ func (*ChainReader).contains
+//@   props C20
+//@   arith int
+//@   requires c != nil && wfChain(c)
+//@   ensures result <==> (c.length > 0 && numOf(c.head) - (c.length - 1) <= blockNum && blockNum <= numOf(c.head))
+
+// A snapshot for block n is empty, or a view over the SAME nodes that starts exactly at n and ends
+// at the stored tip: no gap, nothing below n, and no new node is created or changed.
+//@ extern func sync/atomic.(*Pointer).Load
+//@   ensures result == atomicValue(x)
+//@ ghost func atomicValue(p _) *ChainReader
+//@ func (*ChainStorage).SnapshotForBlock
+//@   props C20
+//@   arith int
+//@   requires s != nil
+//@   requires stored_wf: atomicValue(&s.inner) != nil ==> wfChain(atomicValue(&s.inner))
+//@   ensures empty: (atomicValue(&s.inner) == nil || atomicValue(&s.inner).length == 0 || blockNumber > numOf(atomicValue(&s.inner).head) || int(blockNumber) + atomicValue(&s.inner).length <= int(numOf(atomicValue(&s.inner).head))) ==> result.length == 0 && result.head == nil
+//@   ensures aligned: result.length > 0 ==> result.head == atomicValue(&s.inner).head && numOf(result.head) - uint64(result.length - 1) == blockNumber && result.length <= atomicValue(&s.inner).length
+
+// ---- growing and trimming the chain: fresh nodes only, contiguous by construction ------------------
+// sn2core.AdaptPreConfirmedBlock builds the block for the number it is given (assumed contract).
+//@ extern func github.com/NethermindEth/juno/adapters/sn2core.AdaptPreConfirmedBlock
+//@   ensures result1 == nil ==> result0.Block != nil && result0.Block.Header != nil && result0.Block.Header.Number == number
+//@ extern func github.com/NethermindEth/juno/core.CheckBlockVersion
+
+// The first entry must sit exactly at the first slot above the canonical head.
+//@ func bootstrapChain
+//@   props C20
+//@   arith int
+//@   requires block != nil
+//@   ensures rejected: blockNumber != oldestPreConf ==> result2 != nil && result0 == nil
+//@   ensures single: result2 == nil ==> result0 != nil && fresh(result0) && result0.length == 1 && wfNode(result0.head) && fresh(result0.head) && result0.head.parent == nil && numOf(result0.head) == oldestPreConf && result1 == result0.head.preconfirmed
+
+// Appending creates ONE new node on top of the unchanged old chain; its number is tip+1 when the
+// caller appends at tip+1 (what computeUpdate does), so the run stays gap-free. Nothing that
+// existed before the call is written (no modifies clause: the frame obligation proves that views
+// handed out earlier never change).
+//@ func extend
+//@   props C20
+//@   arith int
+//@   requires current != nil && block != nil && wfChain(current) && current.length > 0
+//@   requires no_wrap: current.length < 1<<62 && numOf(current.head) < 1<<63
+//@   ensures g1: result2 == nil ==> result0 != nil && fresh(result0) && result0.length == current.length + 1
+//@   ensures g2: result2 == nil ==> wfNode(result0.head)
+//@   ensures g3: result2 == nil ==> fresh(result0.head) && result0.head.parent == current.head
+//@   ensures g4: result2 == nil ==> numOf(result0.head) == blockNumber
+//@   ensures g5: result2 == nil ==> result1 == result0.head.preconfirmed
+//@   ensures contiguous: result2 == nil && blockNumber == numOf(current.head) + 1 ==> numOf(result0.head) == numOf(result0.head.parent) + 1 && wfChain(result0)
+//@   ensures old_view_untouched: current.length == old(current.length) && current.head == old(current.head)
+
+// Trimming copies the `keep` newest nodes (so the new oldest node ends the list) and leaves every
+// existing node as it was.
+//@ func rebuild
+//@   props C20
+//@   arith int
+//@   requires keep >= 0
+//@   ensures none: (keep == 0 || current == nil) ==> result == nil
+//@   ensures copy: keep > 0 && current != nil ==> result != nil && fresh(result) && result.preconfirmed == current.preconfirmed
+
+// AdvanceTo(oldest) keeps the tip and drops what lies below `oldest` (or everything, when
+// `oldest` is outside the stored run).
+//@ extern func sync/atomic.(*Pointer).CompareAndSwap
+//@   logged as CAS
+//@ func (*ChainStorage).AdvanceTo
+//@   props C20
+//@   arith int
+//@   requires s != nil
+//@   requires stored_wf: atomicValue(&s.inner) != nil ==> wfChain(atomicValue(&s.inner))
+//@   assigns calls_CAS, arg_CAS_old, arg_CAS_new
+//@   ensures nothing_stored: (atomicValue(&s.inner) == nil || atomicValue(&s.inner).length == 0) ==> !result && calls_CAS == old(calls_CAS)
+//@   ensures aligned_already: atomicValue(&s.inner) != nil && atomicValue(&s.inner).length > 0 && oldestPreConf == numOf(atomicValue(&s.inner).head) - uint64(atomicValue(&s.inner).length - 1) ==> !result && calls_CAS == old(calls_CAS)
+//@   ensures swapped_from_current: calls_CAS != old(calls_CAS) ==> calls_CAS == old(calls_CAS) + 1 && arg_CAS_old == atomicValue(&s.inner)
+//@   callsite CompareAndSwap@1: dropped_only_when_outside: $2 == nil && (oldestPreConf > numOf(atomicValue(&s.inner).head) || oldestPreConf < numOf(atomicValue(&s.inner).head) - uint64(atomicValue(&s.inner).length - 1))
+//@   callsite CompareAndSwap@2: trimmed_keeps_tip: $2 != nil && fresh($2) && $2.length == int(numOf(atomicValue(&s.inner).head) - oldestPreConf) + 1 && $2.head != nil && $2.head.preconfirmed == atomicValue(&s.inner).head.preconfirmed && oldestPreConf <= numOf(atomicValue(&s.inner).head)
+
+// The dispatcher: an update is applied only at a slot inside the run or exactly one above the tip;
+// anything else (a misaligned chain, a target below the oldest slot, a gap above the tip) is an
+// error and leaves the stored chain alone.
+//@ func replaceSlot
+//@   trusted
+//@   logged
+//@ func computeUpdate
+//@   props C20
+//@   arith int
+//@   requires current != nil ==> wfChain(current) && current.length < 1<<62 && (current.length > 0 ==> numOf(current.head) < 1<<63)
+//@   assigns calls_replaceSlot, arg_replaceSlot_current, arg_replaceSlot_update, arg_replaceSlot_blockNumber, arg_replaceSlot_baseTxCount, arg_replaceSlot_newClasses
+//@   ensures bootstrap: (current == nil || current.length == 0) && result2 == nil && result0 != nil ==> result0.length == 1 && wfNode(result0.head) && result0.head.parent == nil && numOf(result0.head) == oldestPreConf && blockNumber == oldestPreConf
+//@   ensures misaligned: current != nil && current.length > 0 && numOf(current.head) - uint64(current.length - 1) != oldestPreConf ==> result2 != nil && result0 == nil
+//@   ensures below: current != nil && current.length > 0 && blockNumber < numOf(current.head) - uint64(current.length - 1) ==> result2 != nil && result0 == nil
+//@   ensures gap: current != nil && current.length > 0 && blockNumber > numOf(current.head) + 1 ==> result2 != nil && result0 == nil
+//@   ensures appended: current != nil && current.length > 0 && blockNumber == numOf(current.head) + 1 && result2 == nil && result0 != nil ==> result0.length == current.length + 1 && wfNode(result0.head) && result0.head.parent == current.head && numOf(result0.head) == numOf(current.head) + 1
+//@   ensures in_chain: calls_replaceSlot != old(calls_replaceSlot) ==> current != nil && current.length > 0 && arg_replaceSlot_blockNumber == blockNumber && numOf(current.head) - uint64(current.length - 1) <= blockNumber && blockNumber <= numOf(current.head) && numOf(current.head) - uint64(current.length - 1) == oldestPreConf
+
+// NewChain accepts exactly the non-nil, gap-free sequences and links them oldest to newest.
+//@ func NewChain
+//@   props C20
+//@   arith int
+//@   requires blocks: forall i int :: 0 <= i && i < len(entries) && entries[i] != nil ==> entries[i].Block != nil && entries[i].Block.Header != nil
+//@   loop 1: invariant idx: -1 <= rangeindex && rangeindex < len(entries) && len(entries) > 0
+//@   loop 1: invariant nonnil: forall i int :: 0 <= i && i <= rangeindex ==> entries[i] != nil
+//@   loop 1: invariant gapfree: forall i int :: 1 <= i && i <= rangeindex ==> entries[i].Block.Header.Number == uint64(entries[i-1].Block.Header.Number + 1)
+//@   loop 1: invariant wfentries: forall i int :: 0 <= i && i < len(entries) && entries[i] != nil ==> entries[i].Block != nil && entries[i].Block.Header != nil
+//@   loop 1: invariant linked: (rangeindex < 0 ==> head == nil) && (rangeindex >= 0 ==> head != nil && fresh(head) && head.preconfirmed == entries[rangeindex])
+//@   ensures empty: len(entries) == 0 ==> result1 == nil && result0.length == 0 && result0.head == nil
+//@   ensures built: result1 == nil && len(entries) > 0 ==> result0.length == len(entries) && result0.head != nil && result0.head.preconfirmed == entries[len(entries) - 1]
+//@   ensures nonnil_checked: result1 == nil ==> (forall i int :: 0 <= i && i < len(entries) ==> entries[i] != nil)
+//@   ensures gapfree_checked: result1 == nil ==> (forall i int :: 1 <= i && i < len(entries) ==> entries[i].Block.Header.Number == uint64(entries[i-1].Block.Header.Number + 1))
